@@ -2604,6 +2604,41 @@ hsStateDetermined:
                 }
 
 /*
+                The message is complete when the lengths of the stored
+                fragments add up to its length.  That is only true if the
+                fragments do not overlap and all describe the same message
+                length; otherwise bytes of fragMessage that no fragment has
+                written would be parsed.  A fragment that overlaps a stored
+                one (a retransmission cut at other offsets) or states another
+                total length is ignored, like a duplicate.
+*/
+                if (hsLen != ssl->fragLenStored)
+                {
+                    psTraceDtls("Fragment with another message length: ignored\n");
+                    return MATRIXSSL_SUCCESS;
+                }
+                {
+                    int32 k;
+                    uint32 kOff;
+
+                    for (k = 0; k < MAX_FRAGMENTS; k++)
+                    {
+                        if (ssl->fragHeaders[k].offset < 0)
+                        {
+                            continue;
+                        }
+                        kOff = (uint32) ssl->fragHeaders[k].offset;
+                        if ((uint32) fragOffset <
+                                kOff + (uint32) ssl->fragHeaders[k].fragLen &&
+                            kOff < (uint32) fragOffset + fragLen)
+                        {
+                            psTraceDtls("Overlapping fragment: ignored\n");
+                            return MATRIXSSL_SUCCESS;
+                        }
+                    }
+                }
+
+/*
                 Need to save the hs header info aside as well so that we may
                 pass the fragments through the handshake hash mechanism in
                 the correct order.  This list also keeps track of the fragment
